@@ -60,7 +60,7 @@ CHECKS = {
             "Trace validation: RunTrace.tla requires every variant's run of one (grammar, input) group to equal the group's first run (verdict, reductions, value, tokens fetched)",
             "go, go -u, go -o, go -o -u and typescript parsers generated by the real CLI, built/loaded by the real toolchains, same inputs.", "TypeScript runs under node 22 type stripping (no tsc in the sandbox).", "5 C08"),
     "C17": ("model_checking",
-            "Trace validation: every line printed with IsTrace is one step of RunTrace17.tla, replayed on the grammar's LR(0) automaton (LR0.tla)",
+            "Trace validation: every line printed with IsTrace is one step of RunTrace17.tla, replayed on the grammar's LR(0) automaton (LR0.tla); ConfLateTrace.tla: runs in which the first semantic action switches IsTrace on print what the validated full run prints from that point",
             "Each shift/goto/reduce line must be a legal step, carry the exact rule text and the current look-ahead, use state numbers consistent with one partial bijection to item sets, and correspond one-to-one to executed actions.",
             "Four Go variants; TypeScript has no trace facility.", "5 C17"),
     "C03": ("model_checking",
